@@ -82,8 +82,18 @@ def case(draw):
         else ''
     policy = draw(st.sampled_from(
         ['false', 'false', 'false', 'true', 'none', 'mix', 'mix', 'raise']))
+    # the CLI takes several paths: a second one, disjoint from the first
+    subpath2 = None
+    if api == 'cli' and not loop:
+        others = [d for d in dirs if d and subpath
+                  and not refverify.comp_prefix(d, subpath)
+                  and not refverify.comp_prefix(subpath, d)]
+        if others and draw(st.booleans()):
+            subpath2 = draw(st.sampled_from(others))
     return {'tree': spec, 'manifests': rendered, 'muts': muts,
-            'subpath': subpath, 'api': api, 'policy': policy,
+            'subpath': subpath, 'subpath2': subpath2,
+            'second_first': draw(st.booleans()),
+            'api': api, 'policy': policy,
             'salt': draw(st.integers(0, 99)), 'j': draw(st.integers(0, 3)),
             'tags': lay['tags'], 'loop': bool(loop),
             # harness-owned directory enumeration order: discrepancies come
@@ -109,6 +119,27 @@ def policy_value(desc, path):
     return (False, True, None)[h % 3]
 
 
+def merged(a, b):
+    """The verdict for two disjoint paths verified in one run."""
+    import types
+    m = types.SimpleNamespace()
+    for k in ('chain_broken', 'unparsable', 'incompatible',
+              'incompatible_dontcare', 'inaccessible', 'offending', 'soft',
+              'dontcare'):
+        x, y = getattr(a, k, None), getattr(b, k, None)
+        if isinstance(x, dict) or isinstance(y, dict):
+            v = dict(x or {})
+            v.update(y or {})
+        elif isinstance(x, (set, frozenset, list, tuple)) or isinstance(
+                y, (set, frozenset, list, tuple)):
+            v = list(x or []) + list(y or [])
+        else:
+            v = x or y
+        setattr(m, k, v)
+    m.summary = lambda: [a.summary(), b.summary()]
+    return m
+
+
 def run_case(desc):
     root = harness.fresh_dir('c07')
     try:
@@ -120,6 +151,12 @@ def run_case(desc):
             return skip('subpath-vanished')
         model = refverify.evaluate(root, 'Manifest', sub)
         classes = ['policy:' + desc['policy'], 'api:' + desc['api']]
+        sub2 = desc.get('subpath2')
+        if sub2 is not None and desc['api'] == 'cli':
+            if not os.path.isdir(os.path.join(root, sub2)):
+                return skip('subpath-vanished')
+            model = merged(model, refverify.evaluate(root, 'Manifest', sub2))
+            classes.append('two-paths')
         hard = set(model.offending)
         may = hard | set(model.soft) | set(model.dontcare)
         has_loop = any('loop' in v for v in model.dontcare.values())
@@ -145,12 +182,24 @@ def run_case(desc):
                     f'{desc["policy"]})')
         else:
             with order:
-                oc, records, _ = gem.cli(
-                    ['verify', '-k',
-                     os.path.join(root, sub) if sub else root])
+                cli_paths = [os.path.join(root, sub) if sub else root]
+                if sub2 is not None:
+                    cli_paths.append(os.path.join(root, sub2))
+                    if desc.get('second_first'):
+                        cli_paths.reverse()
+                oc, records, _ = gem.cli(['verify', '-k'] + cli_paths)
             calls = [os.path.normpath(p) for p in gem.mismatch_paths(records)]
             returned = [False] * len(calls)
-            what = f'`gemato verify -k` of {sub!r}'
+            what = f'`gemato verify -k` of {sub!r}' + (
+                f' and {sub2!r} (second first: {desc.get("second_first")})'
+                if sub2 is not None else '')
+            if oc.kind == 'gemato':
+                if gem.junk_manifest_above(
+                        root, [sub] + ([sub2] if sub2 is not None else [])):
+                    # the CLI's upward search met a file named Manifest
+                    # that is not one (C15's subject, not this property's)
+                    return ok(classes=classes + ['junk-manifest-on-the-way-up'],
+                              dontcare=True)
 
         dirs_hit = {refverify.dirname(p) for p in hard}
         nontrivial = len(hard) >= 2 and len(dirs_hit) >= 2
